@@ -2250,4 +2250,65 @@ theorem sx_all (cfg : Cfg) : ∀ g, SxTok cfg g ∧ SxLoop cfg g ∧ SxTry cfg g
     intro lines start st r hst h
     simp only [tokenizeBlock] at h
     exact hP _ _ _ _ _ hst h
+
+/-! ### The three statements used by C05 -/
+
+theorem allNlEnd_map_sh (k : Nat) (ls : List Line) (h : AllNlEnd ls) : AllNlEnd (ls.map (Line.sh k)) := by
+  intro l hl
+  simp only [List.mem_map] at hl
+  obtain ⟨l0, hl0, rfl⟩ := hl
+  exact h l0 hl0
+
+/-- **(S) Suffix shift.**  Start the dispatch loop at the first line of `B` inside the buffer
+    `pre ++ B` whose first line is numbered `start`, the ghost origins of `B` being those of `B0`
+    shifted by `pre.length`.  The result is the result of `tokenize_block(B0, start)` with every
+    reported line number and ghost origin, at every depth, raised by `pre.length` — appended to
+    whatever the accumulator already holds. -/
+theorem tokLoop_suffix_shift (cfg : Cfg) (gas : Nat) (pre B0 : List Line) (start : Nat) (st : St)
+    (acc : List Entry) (loose : Bool) (hB : AllNlEnd B0) :
+    tokLoop cfg gas { lines := pre ++ B0.map (Line.sh pre.length), pos := pre.length, start := start } st acc loose =
+      rmap (withAcc acc loose) (rmap (shB pre.length) (tokenizeBlock cfg (gas + 1) B0 start st)) := by
+  rw [tokLoop_acc, tokLoop_suffix cfg gas pre _ start st [] false (allNlEnd_map_sh _ _ hB)]
+  have := tokLoop_shift cfg pre.length gas { lines := B0, pos := 0, start := start } st [] false
+  simp only [FW.sh, shiftEntries] at this
+  rw [this]
+  simp only [tokenizeBlock]
+
+/-- **(P) Prefix independence (partial).**  If `tokenize_block(A)` returns and every top-level block
+    it produced is a paragraph, setext or ATX heading, thematic break, block quote or table, then on
+    `A ++ "\n" :: rest` (any `rest`) the tokenizer produces the same blocks, leaves the same state,
+    and continues, with `loose := true`, at the line after the "\n". -/
+theorem tokenizeBlock_prefix (cfg : Cfg) (hbl : .blankLine ∉ cfg.types) (A : List Line) (nl : Line) (hnl : nl.s = ['\n'])
+    (rest : List Line) (start : Nat) (st : St) (gas : Nat) (bA : Buf) (stA : St)
+    (hA : tokenizeBlock cfg gas A start st = .ok (bA, stA)) (hcl : ∀ e ∈ bA.entries, closedE e = true)
+    (hnlA : AllNlEnd A) (extra : Nat) (hex : cfg.types.length < extra) :
+    ∃ g', extra ≤ g' ∧
+      tokenizeBlock cfg (gas + extra) (A ++ nl :: rest) start st =
+        tokLoop cfg g' { lines := A ++ nl :: rest, pos := A.length + 1, start := start } stA bA.entries.reverse true := by
+  cases gas with
+  | zero => simp [tokenizeBlock] at hA
+  | succ g =>
+    have e : g + 1 + extra = (g + extra) + 1 := by omega
+    rw [e]
+    simp only [tokenizeBlock] at hA ⊢
+    exact tokLoop_ext cfg nl rest hnl hbl extra hex g { lines := A, pos := 0, start := start } st [] false bA stA
+      (Nat.zero_le _) hnlA hA hcl
+
+/-- **Concatenation across a blank line (partial).**  `A`, a "\n" line and `B` tokenized as one buffer
+    give `A`'s blocks followed by `B`'s blocks, the latter with line numbers (and ghost origins)
+    raised by `A.length + 1`; `B` is read in the state `A` leaves behind. -/
+theorem tokenizeBlock_concat (cfg : Cfg) (hbl : .blankLine ∉ cfg.types) (A B0 : List Line) (nl : Line) (hnl : nl.s = ['\n'])
+    (start : Nat) (st : St) (gA gB : Nat) (bA bB : Buf) (stA stB : St)
+    (hA : tokenizeBlock cfg gA A start st = .ok (bA, stA)) (hcl : ∀ e ∈ bA.entries, closedE e = true)
+    (hB : tokenizeBlock cfg gB B0 start stA = .ok (bB, stB)) (hnlA : AllNlEnd A) (hnlB : AllNlEnd B0) :
+    tokenizeBlock cfg (gA + (gB + cfg.types.length + 1)) (A ++ nl :: B0.map (Line.sh (A.length + 1))) start st =
+      .ok ({ entries := bA.entries ++ shiftEntries (A.length + 1) bB.entries, loose := true }, stB) := by
+  obtain ⟨g', hg, heq⟩ := tokenizeBlock_prefix cfg hbl A nl hnl (B0.map (Line.sh (A.length + 1))) start st gA bA stA hA hcl hnlA
+    (gB + cfg.types.length + 1) (by omega)
+  rw [heq]
+  have h1 : A ++ nl :: B0.map (Line.sh (A.length + 1)) = (A ++ [nl]) ++ B0.map (Line.sh (A ++ [nl]).length) := by simp
+  have h2 : A.length + 1 = (A ++ [nl]).length := by simp
+  rw [h1, h2, tokLoop_suffix_shift cfg g' (A ++ [nl]) B0 start stA _ true hnlB,
+    tokenizeBlock_mono cfg B0 start stA (bB, stB) gB (g' + 1) (by omega) hB]
+  simp [withAcc, shB]
 end Mistletoe.Block
